@@ -7,8 +7,9 @@
      runtime/src/vm/dispatch/ops/call_global*.inc, calls.inc (call: sync caller, prepare callee;
                                                Return: sync callee, pop, prepare caller -- only when
                                                there is a caller frame with a non-zero mapping id)
-     runtime/src/vm/call_api/{kinds,cached}.rs (host call: prepare callee WITHOUT sync, push a frame
-                                               WITHOUT clearing the frame stack)
+     runtime/src/vm/call_api/{kinds,cached}.rs (host call: prepare callee, push a frame without
+                                               clearing the frame stack)
+     runtime/src/vm/dispatch/run.rs           (run_fast drops the frames of a failed run)
      driver/src/api/repl.rs                   (clear_frames; compile; update_global_mutability;
                                                execute; sync + known-globals only on success)
    Definitions only; the model is of the code as it is. *)
@@ -20,9 +21,9 @@ Local Open Scope N_scope.
 Definition val := option Z.                        (* None = null *)
 Record layout := mkLayout { l_id : N; l_names : list (option N) }.   (* None = "" (unnamed slot) *)
 
-(* a frame: the layout id of its function and the frame's global_mapping_id field (0 when the
-   host's cached-callable path pushed it) *)
-Record frame := mkFrame { f_fn : N; f_gmap : N }.
+(* a frame: the layout id of its function, the frame's global_mapping_id field, and whether it is
+   the entry frame of a run (pushed by VM::execute or by the call API right before run_fast) *)
+Record frame := mkFrame { f_fn : N; f_gmap : N; f_entry : bool }.
 
 Record gstate := mkG {
   gmap : list (N * val);                 (* VM.globals: by name *)
@@ -78,7 +79,7 @@ Definition execute (st : gstate) (L : layout) : gstate :=
            | [] => gidx st
            | ns => load_vec (gmap st) ns ++ skipn (length ns) (gidx st)
            end in
-  mkG (gmap st) g (l_id L) (snap st) (mkFrame (l_id L) (l_id L) :: frames st) (ltab st) (gmut st).
+  mkG (gmap st) g (l_id L) (snap st) (mkFrame (l_id L) (l_id L) true :: frames st) (ltab st) (gmut st).
 
 (* set_global_by_index *)
 Definition set_idx (st : gstate) (i : N) (v : val) : gstate :=
@@ -118,16 +119,20 @@ Definition call_enter (st : gstate) (L : layout) : gstate :=
   let st1 := if negb (id =? 0) && negb (id =? g)
              then prepare (if negb (g =? 0) then sync_current st else st) id
              else st in
-  with_frames st1 (mkFrame id id :: frames st1).
+  with_frames st1 (mkFrame id id false :: frames st1).
 
-(* Return / Return0.  Result: the state and whether the run loop is left (the frame stack is empty) *)
+(* Return / Return0.  Result: the state and whether the run loop is left (the frame stack is empty).
+   The globals are copied back to the by-name map towards a caller frame with a non-zero mapping id
+   and (a3cbd29) when the Return leaves the run loop. *)
 Definition do_return (st : gstate) : gstate * bool :=
   match frames st with
   | [] => (st, true)
   | f :: rest =>
       let caller_gmap := match rest with c :: _ => f_gmap c | [] => 0 end in
       let needs := negb (f_gmap f =? 0) && negb (f_gmap f =? caller_gmap) in
-      let st1 := if needs && negb (caller_gmap =? 0) then sync_current st else st in
+      let leaving := match rest with [] => true | _ => false end in
+      let st1 := if needs && (negb (caller_gmap =? 0) || (RETURN_SYNCS_WHEN_LEAVING && leaving))
+                 then sync_current st else st in
       let st2 := with_frames st1 rest in
       match rest with
       | [] => (st2, true)
@@ -135,11 +140,20 @@ Definition do_return (st : gstate) : gstate * bool :=
       end
   end.
 
-(* call_function_kind (cached = false) / call_cached_function (cached = true) *)
+(* run_fast on a runtime error (c94595b): the entry frame of the run and everything above it is
+   dropped *)
+Fixpoint unwind (fs : list frame) : list frame :=
+  match fs with
+  | [] => []
+  | f :: r => if f_entry f then r else unwind r
+  end.
+
+(* call_function_kind (cached = false) / call_cached_function (cached = true; bae557e: its frame
+   carries the mapping id too) *)
 Definition host_enter (st : gstate) (L : layout) (cached : bool) : gstate :=
   let st := register (if HOST_CALL_CLEARS_FRAMES then with_frames st [] else st) L in
   let st1 := prepare st (l_id L) in
-  with_frames st1 (mkFrame (l_id L) (if cached then 0 else l_id L) :: frames st1).
+  with_frames st1 (mkFrame (l_id L) (if cached && negb CACHED_FRAME_HAS_MAPPING_ID then 0 else l_id L) true :: frames st1).
 
 (* ---- operations and observations ---------------------------------------------------------- *)
 Inductive op :=
@@ -154,15 +168,14 @@ Inductive op :=
 | OSyncNames (L : layout)            (* driver: sync_globals_to_hashmap(global_names) after success *)
 | OMutability (ns : list (N * bool)) (* driver: update_global_mutability after compile success *)
 | OHostCall (L : layout) (cached : bool)
-| OFail                              (* a runtime error: run_fast returns Err, nothing is unwound *)
+| OFail                              (* a runtime error: run_fast returns Err after dropping the frames of the run *)
 | OReadMap (n : N)                   (* observation: vm.get_global(name) *)
 | OFrames                            (* observation: frames.len() *)
 | OCollect.                          (* a collection clears the snapshot cache *)
 
 Definition zval (v : val) : Z := match v with Some z => z | None => (-1000000007)%Z end.
 
-(* flags raised by a step: 1 = a host call was entered on a non-empty frame stack;
-   2 = the run loop was left by a Return that skipped the sync (no caller frame) *)
+(* flag raised by a step: 1 = a host call was entered on a non-empty frame stack *)
 Record res := mkRes { r_st : gstate; r_obs : list Z; r_flags : list N; r_failed : bool }.
 
 Definition step_op (st : gstate) (o : op) : gstate * list Z * list N * bool :=
@@ -173,7 +186,8 @@ Definition step_op (st : gstate) (o : op) : gstate * list Z * list N * bool :=
   | OAddIdx i k =>
       match gnth (gidx st) (N.to_nat i) with
       | Some z => (set_idx st i (Some (z + k)%Z), [], [], false)
-      | None => (st, [], [], true)                       (* null + int: type error *)
+      | None => (if RUN_FAST_UNWINDS_ON_ERROR then with_frames st (unwind (frames st)) else st, [], [], true)
+                                                         (* null + int: type error, the run fails *)
       end
   | OPrintIdx i k =>
       match gnth (gidx st) (N.to_nat i) with
@@ -184,11 +198,11 @@ Definition step_op (st : gstate) (o : op) : gstate * list Z * list N * bool :=
   | OCall L => (call_enter st L, [], [], false)
   | OReturn =>
       let '(st', lft) := do_return st in
-      (st', [], (if lft then [2] else []), false)
+      (st', [], [], false)
   | OSyncNames L => (sync_names st (l_names L), [], [], false)
   | OMutability ns => (mkG (gmap st) (gidx st) (cur st) (snap st) (frames st) (ltab st) (ns ++ gmut st), [], [], false)
   | OHostCall L c => (host_enter st L c, [], (match frames st with [] => [] | _ => [1] end), false)
-  | OFail => (st, [], [], true)
+  | OFail => (if RUN_FAST_UNWINDS_ON_ERROR then with_frames st (unwind (frames st)) else st, [], [], true)
   | OReadMap n => (st, [zval (glookup (gmap st) n)], [], false)
   | OFrames => (st, [Z.of_nat (length (frames st))], [], false)
   | OCollect => (mkG (gmap st) (gidx st) (cur st) [] (frames st) (ltab st) (gmut st), [], [], false)
@@ -243,6 +257,7 @@ Definition repl_input (st : gstate) (compiles : bool) (L : layout) (muts : list 
 (* what the host receives when the callee's body returns v: the run loop is left only when the
    frame stack becomes empty; otherwise the frame beneath is resumed *)
 Inductive host_result := HostGets (v : Z) | HostResumes (stale : frame).
+(* (the run fails instead: see [unwind]) *)
 Definition host_call_result (st : gstate) (L : layout) (cached : bool) (v : Z) : host_result :=
   let st1 := host_enter st L cached in
   match frames (fst (do_return st1)) with
